@@ -53,6 +53,26 @@ def _table_visible(ps):
                for p in ps for t, v in p.cons)
 
 
+def _len_upper(cons):
+    """largest ring length (caller vertices) the path's tests on len(ring) allow, None when unbounded"""
+    ub = None
+    for t, v in cons:
+        if t[0] != 'bin' or t[1] not in ('Lt', 'Le', 'Eq'):
+            continue
+        tv = (v != 0) if isinstance(v, int) else (True if v == ('not', (0,)) else None)
+        if tv is None:
+            continue
+        a, b = t[2], t[3]
+        k = None
+        if a[0] == 'len' and b[0] == 'int' and tv:
+            k = {'Lt': b[1] - 1, 'Le': b[1], 'Eq': b[1]}[t[1]]
+        elif b[0] == 'len' and a[0] == 'int' and not tv and t[1] in ('Lt', 'Le'):
+            k = {'Lt': a[1], 'Le': a[1] - 1}[t[1]]                     # !(k < len)  ->  len <= k
+        if k is not None:
+            ub = k if ub is None else min(ub, k)
+    return ub
+
+
 def run(ctx):
     F = ctx.facts("default")
     ctx.rule("C16.route", "every public constructor of GenericPolygon passes every ring through close_and_reorder (closing, then "
@@ -159,6 +179,7 @@ def run(ctx):
     payload = (SELF, (('vp', '0'),))
     # --- close / effects / table ----------------------------------------------------------------
     close_ok = bool(ps)
+    unoriented = []
     eff_ok = True
     order_ok = True
     table = {}
@@ -224,6 +245,12 @@ def run(ctx):
                     order_ok = False
         if declared in ('Outer', 'Inner') and computed:
             table.setdefault((declared, computed), set()).add(bool(revs))
+        elif computed is None and p.status == 'return' and (first_some or closed):
+            # leaving without the orientation is only sound when the path bounds the ring to a size whose area is zero:
+            # at most 2 caller vertices when it is open (3 once closed), at most 3 when it is closed already
+            ub = _len_upper(p.cons)
+            if ub is None or ub > (3 if closed else 2):
+                unoriented.append("at most %s vertices" % ub if ub is not None else "any size")
     ctx.ob("C16.close", "close_points_if_not_already", close_ok, "; ".join(sorted(set(why_c))) or
            "pushes exactly one copy of vertex [0], only when not already closed", site=csite, key="C16.close|push")
     ctx.ob("C16.effects", "mutations", eff_ok, "; ".join(sorted(set(why_e))) or "only push(first) and reverse of the whole vector",
@@ -233,6 +260,10 @@ def run(ctx):
         ctx.ob("C16.table", "declared %s, computed %s" % k, table.get(k) == v,
                "reversed: %s (expected %s)%s" % (sorted(table.get(k, [])), sorted(v), "" if order_ok else "; orientation not computed on the closed ring"),
                site=csite, key="C16.table|%s|%s" % k)
+    ctx.ob("C16.table", "every ring is oriented", not unoriented,
+           "every path through the normaliser on a non-empty ring computes the orientation" if not unoriented else
+           "a ring that can have non-zero area (%s) leaves the normaliser without its orientation having been computed (an early "
+           "return on a size or shape test)" % sorted(set(unoriented)), site=csite, key="C16.table|all-oriented")
     ctx.ob("C16.table", "closing before orienting", order_ok, "push precedes reverse and the orientation sum is taken over the closed ring",
            site=csite, key="C16.table|order")
     # is_part_closed
